@@ -40,8 +40,8 @@ def tables(prop, tier, seed, ctx):
 
 STRESS_SCENARIOS = {
     # property -> (quick scenarios, quick seconds for the hammer, thorough scenarios, thorough seconds)
-    "C01": (["late", "blocking"], 0, ["late", "blocking", "hammer"], 60),
-    "C02": (["blocking"], 0, ["blocking", "hammer"], 60),
+    "C01": (["late", "blocking", "cancel"], 0, ["late", "blocking", "cancel", "hammer"], 60),
+    "C02": (["blocking", "cancel"], 0, ["blocking", "cancel", "hammer"], 60),
     "C12": (["ids"], 0, ["ids"], 0),
     "C03": (["askjoin", "hammer", "idlewin", "blocking"], 6, ["askjoin", "hammer", "idlewin", "blocking"], 180),
     "C06": ([], 0, ["hammer"], 60),
@@ -49,8 +49,9 @@ STRESS_SCENARIOS = {
     "C10": (["late", "blocking"], 0, ["late", "blocking"], 0),
     "C11": (["ids", "refs"], 0, ["ids", "refs"], 0),
     "C13": (["blocking"], 0, ["blocking"], 0),
-    "C07": (["refs"], 0, ["refs", "hammer"], 60),
-    "C16": (["lazyfut"], 0, ["lazyfut"], 0),
+    "C07": (["refs", "cancel"], 0, ["refs", "cancel", "hammer"], 60),
+    "C16": (["lazyfut", "blocking"], 0, ["lazyfut", "blocking"], 0),
+    "C09": (["blocking", "cancel"], 0, ["blocking", "cancel"], 0),
     "C17": (["blocking", "late"], 0, ["blocking", "late", "hammer"], 60),
 }
 
@@ -318,7 +319,7 @@ def macrocorpus(prop, tier, seed, ctx):
         for p in pos:
             e = expect[p["id"]]
             logs = 1 if e == "log" else 0
-            want = f"start_ok=true ask_ok={p['ask_ok']} ask_err={p['ask_err']} logs_ask=0 logs_tell_ok=0 logs_tell_err={logs} calls=4 completed=true"
+            want = f"start_ok=true ask_ok={p['ask_ok']} ask_err={p['ask_err']} logs_ask=0 logs_tell_ok=0 logs_tell_err={logs} calls=4 completed=true parked=true killed=true logs_tell_err_kill_pending={logs}"
             g = got.get(p["id"], "<no output>")
             ok = g.startswith(want + " text=")
             if ok and logs == 1 and p["err_text"] and p["err_text"] not in g.split(" text=", 1)[1]:
